@@ -92,7 +92,7 @@ PROPS = {
         assumptions=['well-posed layouts', 'callbacks from the scripted language']),
     'C16': dict(
         vfile='Props/C16.v', ties=['Tie/TieEnv.v', 'Tie/TieFloor.v'],
-        families=[('floor', 400, 12000, 'small', 'large')],
+        families=[('floor', 400, 12000, 'small', 'large'), ('value', 150, 4000, 'small', 'large')],
         rule='F_floor scenarios: layered production lines (sources incl. cycle 0 and finite budgets, handlers, processors with resources/callbacks/work orders, buffers with delay and capacity, batchers, decision gates, flow controllers, shared groups reached through several paths, sinks), scripted failures/shutdowns/restores/blocking/capacity changes, many single steps then runs, generated from VERIF_SEED (corpus/floor first); '
              'non-trivial = at least 8 parts received and 3 supplied; distinct by scenario text',
         explanation='Value theorems: a generated part carries the generator value; every device adds its value exactly once on acceptance (guarded transformer), '
